@@ -63,7 +63,10 @@ def prior_content(rng, st, which):
     if which == "foreign":
         return "@@ SPDX-FileCopyrightText: 2001 Foreign Holder\n@@ SPDX-License-Identifier: 0BSD\n\nK1 code\n", \
             {"SPDX-FileCopyrightText: 2001 Foreign Holder"}, {"0BSD"}
-    lines = ["SPDX-FileCopyrightText: 2002 Own Earlier", "", "SPDX-License-Identifier: ISC"]
+    if which == "longcr":
+        # classic Mac line endings and more than one header window of text
+        return "".join(f"K{i} code line of a long CR-only file\r" for i in range(160)), set(), set()
+    lines = ["SPDX-FileCopyrightText: 2002 Own Earlier", "SPDX-FileContributor: Earlier Contributor", "", "SPDX-License-Identifier: ISC"]
     return trees.comment_block(st, lines) + "\n\nK1 code\n", {"SPDX-FileCopyrightText: 2002 Own Earlier"}, {"ISC"}
 
 
@@ -77,7 +80,7 @@ def one(res, ctx, root, rng, t, forced_style, idx, sample=False):
     f = d / fname
     binary = t is not None and rng.random() < 0.08
     uncomm = t is not None and (t["uncommentable"] or t["empty"])
-    which = rng.choice(["empty", "code", "foreign", "own"]) if st is not None and not uncomm else rng.choice(["empty", "code"])
+    which = rng.choice(["empty", "code", "foreign", "own", "own", "longcr"]) if st is not None and not uncomm else rng.choice(["empty", "code"])
     if binary:
         f.write_bytes(trees.BINARY_BLOB)
         prev_c, prev_l = set(), set()
@@ -85,7 +88,8 @@ def one(res, ctx, root, rng, t, forced_style, idx, sample=False):
         body, prev_c, prev_l = prior_content(rng, st, which) if st else (rng.choice(["", "K1 code\n"]), set(), set())
         if (uncomm or t is None and not forced_style) and which in ("foreign", "own"):
             body, prev_c, prev_l = "K1 code\n", set(), set()
-        f.write_text(body, encoding="utf-8")
+        with open(f, "w", encoding="utf-8", newline="") as fp:
+            fp.write(body)
     empty_body = (not binary) and f.stat().st_size == 0
     # ---- options
     args = []
@@ -200,8 +204,14 @@ def one(res, ctx, root, rng, t, forced_style, idx, sample=False):
         res.violation(key, f"annotate succeeded but lint reads copyrights {sorted(got_c)} licences {sorted(got_l)}; expected {sorted(want_c)} / {sorted(want_l)} ({desc})",
                       args=args, written=open(annot.carrier_of(f), encoding="utf-8", errors="replace").read()[:600])
         return
-    if contribs and template in (None, "custom", "commented"):
+    prior_contrib = {"Earlier Contributor"} if (which == "own" and not binary and dot != "--force-dot-license"
+                                                and not annot.carrier_of(f).endswith(".license")) else set()
+    if (contribs or prior_contrib) and template in (None, "custom", "commented"):
         gc = annot.read_contributors(f)
+        if gc is not None and prior_contrib and not prior_contrib <= gc:
+            res.violation(f"declared-contributor-dropped:{short}", f"the header declared contributor {sorted(prior_contrib)} before; after a successful annotate the "
+                          f"extractor reads {sorted(gc)} ({desc})", args=args)
+            return
         if gc is None or not set(contribs) <= gc:
             res.violation(f"contributors-not-read-back:{short}", f"contributors {contribs} requested, extractor reads {gc} ({desc})", args=args)
             return
